@@ -469,7 +469,11 @@ func (p *Program) canon(fn *Func, x ast.Expr, depth int) string {
 						}
 					}
 				}
-				return p.canon(fn, v.X, depth+1) + "." + sel.Obj().Name()
+				base := p.canon(fn, v.X, depth+1)
+				if strings.HasPrefix(base, "&var:") || strings.HasPrefix(base, "&local:") || strings.HasPrefix(base, "&recv") || strings.HasPrefix(base, "&param:") {
+					base = base[1:] // (&x).f is x.f
+				}
+				return base + "." + sel.Obj().Name()
 			default:
 				return p.canon(fn, v.X, depth+1) + ".method:" + sel.Obj().Name()
 			}
